@@ -4,8 +4,9 @@ Stores a confirmed seeded change under /verif/seeded/<PROP>-<n>/ (patch.diff, de
 import json, os, shutil, sys, subprocess
 prop, n, demodir, rx, caught, missed = sys.argv[1:7]
 needs = ' '.join(sys.argv[7:])
-src = f'/tmp/seedout/{prop}'
-dst = f'/verif/seeded/{prop}-{n}'
+src = os.environ.get('SEEDSRC', '/tmp/seedout') + f'/{prop}'
+keepn = os.environ.get('KEEPN', n)
+dst = f'/verif/seeded/{prop}-{keepn}'
 os.makedirs(dst, exist_ok=True)
 shutil.copy(f'{src}/change{n}.diff', f'{dst}/patch.diff')
 shutil.copy(f'{src}/demo{n}_test.go', f'{dst}/demo_test.go')
@@ -14,7 +15,7 @@ if os.path.exists(notes):
     shutil.copy(notes, f'{dst}/notes.md')
 head = subprocess.run(['git', '-C', '/repo', 'rev-parse', '--short', 'HEAD'], capture_output=True, text=True).stdout.strip()
 meta = {
-    "id": f"{prop}-{n}", "breaks_property": prop,
+    "id": f"{prop}-{keepn}", "breaks_property": prop,
     "origin": "independent sub-agent given only the property text and a scratch worktree",
     "needs_to_manifest": needs,
     "demo": {"file": "demo_test.go", "place_in": demodir, "run": f"go1.27.0 test -vet=off -count=1 -run '{rx}' ./{demodir}/"},
